@@ -97,7 +97,7 @@ def _report_value(ctx, rid, gate, func, node, val, oracle, allowed_strip_mask, w
         r.ok(rid, "%s: values reaching %s are within the grammar (%d-state DFA)%s" % (gate, what, val.lang.dfa().n_states(), detail_ctx), loc)
 
 
-def _under(ctx, rid, gate, an, var, oracle, func):
+def _under(ctx, rid, gate, an, var, oracle, func, sink=None):
     """Under-acceptance: every regex gate applied to `var` must accept all
     grammar strings among its possible subjects."""
     it = get_interp(ctx)
@@ -122,6 +122,8 @@ def _under(ctx, rid, gate, an, var, oracle, func):
                 mv = v
         if mv is None or mv.var != var or mv.subject is None:
             continue
+        if sink is not None and n.pred and not an.cfg.dominates(n.pred[0][0], sink):
+            continue  # a gate on another variable of the same name elsewhere in the function
         n_g += 1
         missing = (oracle & mv.subject.lang) - mv.lang
         w = missing.witness()
@@ -136,9 +138,8 @@ def _under(ctx, rid, gate, an, var, oracle, func):
 
 
 # ----------------------------------------------------------------------
-def rule_g1(ctx):
+def rule_g1(ctx, rid="C10.G1"):
     """Content-Length = 1*DIGIT at the numeric conversion in parse_header."""
-    rid = "C10.G1"
     ctx.r.rule(rid, "Content-Length accepted iff 1*DIGIT (value language at int() in parse_header)")
     it = get_interp(ctx)
     f = ctx.p.func("parser.HTTPRequestParser.parse_header")
@@ -160,7 +161,7 @@ def rule_g1(ctx):
                 continue
             _report_value(ctx, rid, "G1 Content-Length", f, n, val, G.content_length, G.WSP, "int()", numeric=True)
             if isinstance(arg, ast.Name):
-                _under(ctx, rid, "G1 Content-Length", an, arg.id, G.content_length, f)
+                _under(ctx, rid, "G1 Content-Length", an, arg.id, G.content_length, f, sink=n)
         for n, c in fsr:
             a0 = c.args[0] if c.args else None
             ok = False
@@ -176,8 +177,7 @@ def rule_g1(ctx):
     ctx.r.floor(rid, sinks, 1, "int() conversions of Content-Length")
 
 
-def rule_g2_g3(ctx):
-    rid2, rid3 = "C10.G2", "C10.G3"
+def rule_g2_g3(ctx, rid2="C10.G2", rid3="C10.G3"):
     ctx.r.rule(rid2, "chunk-size accepted iff 1*HEXDIG (value language at int(x,16) in ChunkedReceiver.received)")
     ctx.r.rule(rid3, "chunk-ext accepted iff *( ';' token [ '=' ( token / quoted-string ) ] ) (suffix split off the control line)")
     it = get_interp(ctx)
@@ -200,7 +200,7 @@ def rule_g2_g3(ctx):
             else:
                 ctx.r.violation(rid2, "G2:base", "chunk-size converted with base %r (prefix/underscore forms possible)" % (base,), f.loc(n.ast))
             if isinstance(arg, ast.Name):
-                _under(ctx, rid2, "G2 chunk-size", an, arg.id, G.chunk_size, f)
+                _under(ctx, rid2, "G2 chunk-size", an, arg.id, G.chunk_size, f, sink=n)
         # G3: every prefix slice at a find(';')-like position drops a suffix that must be validated
         for n in an.cfg.nodes:
             if n.kind != "stmt" or not isinstance(n.ast, ast.Assign) or n.id not in an.inst:
@@ -234,7 +234,7 @@ def rule_g2_g3(ctx):
                     ctx.r.error(rid3, "suffix variable %s not live at %s" % (sv, f.loc(n.ast)))
                     continue
                 _report_value(ctx, rid3, "G3 chunk-ext", f, n, val, G.chunk_ext_nonempty, 0, "the accepted control line")
-                _under(ctx, rid3, "G3 chunk-ext", an, sv, G.chunk_ext_nonempty, f)
+                _under(ctx, rid3, "G3 chunk-ext", an, sv, G.chunk_ext_nonempty, f, sink=n)
     ctx.r.floor(rid2, sinks, 1, "int(x, 16) conversions of chunk sizes")
     ctx.r.floor(rid3, exts, 1, "chunk-extension splits")
 
@@ -257,8 +257,7 @@ def _header_store_nodes(an):
     return out
 
 
-def rule_g4(ctx):
-    rid = "C10.G4"
+def rule_g4(ctx, rid="C10.G4"):
     ctx.r.rule(rid, "field line accepted iff token ':' OWS field-value OWS (language of lines reaching the header store)")
     it = get_interp(ctx)
     f = ctx.p.func("parser.HTTPRequestParser.parse_header")
@@ -284,12 +283,11 @@ def rule_g4(ctx):
                 continue
             sinks += 1
             _report_value(ctx, rid, "G4 field-line", f, n, val, G.field_line, 0, "the header map store")
-            _under(ctx, rid, "G4 field-line", an, loopvar, G.field_line, f)
+            _under(ctx, rid, "G4 field-line", an, loopvar, G.field_line, f, sink=n)
     ctx.r.floor(rid, sinks, 2, "stores into the header map")
 
 
-def rule_g5(ctx):
-    rid = "C10.G5"
+def rule_g5(ctx, rid="C10.G5"):
     ctx.r.rule(rid, "request line accepted iff token SP target [ SP 'HTTP/' DIGIT '.' DIGIT ] (language at the success return of crack_first_line)")
     it = get_interp(ctx)
     f = ctx.p.func("parser.crack_first_line")
